@@ -10,7 +10,7 @@ let entry_id = function
   | "sub82" | "sub82p" -> 50 | "d4parse" -> 51 | "d4msg" -> 52 | "attr80" -> 60
   | "sesspap" -> 4 | "sesschap" -> 7
   | "radreply" -> 61 | "radreqauth" -> 62 | "radma" -> 63 | "coaattrs" -> 64 | "ipoeopts" -> 65 | "l2ppp" -> 66
-  | "bkevd6" | "bkevra" | "bkevl2" -> 71 | "radex" -> 72 | "radparse" -> 73 | "bkpadr" -> 74 | "l2dg" -> 75 | "l2seq" -> 76 | "cookie" -> 77 | "chalresp" -> 78
+  | "bkevd6" | "bkevra" | "bkevl2" -> 71 | "radex" -> 72 | "radparse" -> 73 | "bkpadr" -> 74 | "l2dg" -> 75 | "l2seq" -> 76 | "cookie" -> 77 | "chalresp" -> 78 | "v6duid" -> 79 | "v6repl" -> 80 | "v6life" -> 81 | "gihops" -> 82
   | _ -> 0
 let show_tok = function
   | TN n -> decimal_of_n n
